@@ -113,6 +113,54 @@ def T(name, rows): out.append("Definition %s : list (Z * string) := [%s]." % (na
 T("lspawn_report_table", switch_table(after(func_body("qmail-lspawn.c", "report"), "wait_exitcode"), defines("qlx.h"), first_letter))
 T("qmail_close_table", switch_table(after(func_body("qmail.c", "qmail_close"), "switch"), {}, first_letter))
 T("local_program_exit_table", switch_table(after(func_body("qmail-local.c", "mailprogram"), "wait_exitcode"), {}, exit_arg))
+# ---- leaf functions of the table code (constmap.c, cdb_*.c, cdbmake_*.c, case_diffb.c) and the slot handling of spawn.c:
+#      the models in Base/Constmap.v, Base/Cdb.v, Remote/SpawnSlot.v transcribe these few lines; the normalised text is tied
+#      literally, and the numbers that matter are also extracted as numbers
+def nows(s): return re.sub(r"\s+", "", s)
+def cchar(tok):
+    m = re.match(r"'(.)'$", tok)
+    return ord(m.group(1)) if m else (int(tok) if tok.isdigit() else None)
+def fold_bound(body, var):
+    """(bound, add) of  if (var <= 'Z' - 'A') var += 'a' - 'A' ;  bound is the largest value folded"""
+    m = re.search(r"if\(%s(<=|<)('.'|\d+)-('.'|\d+)\)%s\+=('.'|\d+)(?:-('.'|\d+))?;" % (var, var), nows(body))
+    if not m: return (-1, -1)
+    hi, lo = cchar(m.group(2)), cchar(m.group(3))
+    a, b = cchar(m.group(4)), (cchar(m.group(5)) if m.group(5) else 0)
+    if None in (hi, lo, a, b): return (-1, -1)
+    return (hi - lo - (1 if m.group(1) == "<" else 0), a - b)
+cmh = func_body("constmap.c", "hash")
+S("cm_hash_src", nows(cmh))
+fb = fold_bound(cmh, "ch"); Z("cm_fold_max", fb[0]); Z("cm_fold_add", fb[1])
+m_ = re.search(r"h=(\d+);", nows(cmh)); Z("cm_hash_start", int(m_.group(1)) if m_ else -1)
+S("cdb_hash_src", nows(func_body("cdb_hash.c", "cdb_hash")))
+S("cdbmake_hashadd_src", nows(func_body("cdbmake_hash.c", "cdbmake_hashadd")))
+S("cdb_unpack_src", nows(func_body("cdb_unpack.c", "cdb_unpack")))
+S("cdbmake_pack_src", nows(func_body("cdbmake_pack.c", "cdbmake_pack")))
+cdb_ = func_body("case_diffb.c", "case_diffb")
+S("case_diffb_src", nows(cdb_))
+fx = fold_bound(cdb_.replace("else x += 'A'", ""), "x"); Z("case_fold_max", fx[0])
+m_ = re.search(r"#\s*define\s+CDBMAKE_HASHSTART\s+\(\(uint32\)\s*(\d+)\)", rd("cdbmake.h")); Z("cdbmake_hashstart", int(m_.group(1)) if m_ else -1)
+m_ = re.search(r"char\s+final\s*\[\s*(\d+)\s*\]", rd("cdbmake.h")); Z("cdb_header_bytes", int(m_.group(1)) if m_ else -1)
+seek_ = nows(func_body("cdb_seek.c", "cdb_seek"))
+Z("cdb_seek_slot_expr", 1 if "pos=8*(h&255);" in seek_ else 0)
+Z("cdb_seek_start_expr", 1 if "h2=(h>>8)%lenhash;" in seek_ else 0)
+Z("cdb_seek_error_is_minus1", 1 if seek_.count("return-1;") >= 5 and "case-1:return-1;" in seek_ else 0)
+rh_ = nows(func_body("rcpthosts.c", "rcpthosts"))
+Z("rcpthosts_returns_seek_result", 1 if "r=cdb_seek(fdmrh,buf+j,len-j,&dlen);if(r)returnr;" in rh_ else 0)
+sm_ = nows(rd("qmail-smtpd.c"))
+Z("smtpd_dies_on_rcpthosts_error", 1 if "r=rcpthosts(addr.s,str_len(addr.s));if(r==-1)die_control();" in sm_ else 0)
+# spawn.c: who holds the write end of the report pipe, and which status report() is given
+dc_ = func_body("spawn.c", "docmd"); i_ = dc_.find("f = spawn(")
+tail_ = nows(dc_[i_:]) if i_ >= 0 else ""
+succ_ = re.sub(r"if\(f==-1\)\{.*?\}", "", tail_, count=1)
+Z("spawn_keeps_write_end", 1 if ("d[delnum].fdout=pi[1];" in succ_ and "close(pi[1])" not in succ_) else 0)
+S("spawn_sigchld_src", nows(func_body("spawn.c", "sigchld")))
+mn_ = nows(func_body("spawn.c", "main"))
+Z("spawn_report_on_eof_uses_slot_wstat", 1 if re.search(r"if\(r==0\)\{ch=i;substdio_put\(&ssout,&ch,1\);report\(&ssout,d\[i\]\.wstat,d\[i\]\.output\.s,d\[i\]\.output\.len\);", mn_) else 0)
+Z("spawn_docmd_does_not_reset_wstat", 1 if "wstat" not in nows(dc_) else 0)
+# qmail-local.c: the marker senders are exempt from the owner rewrite
+ql_ = nows(rd("qmail-local.c"))
+Z("local_owner_exempts_markers", 1 if 'if(str_diff(sender,""))if(str_diff(sender,"#@[]"))if(qmeox("-owner")==0)' in ql_ else 0)
 os.makedirs(os.path.join(V, "coq", "gen"), exist_ok=True)
 p = os.path.join(V, "coq", "gen", "Params_gen.v")
 txt = "\n".join(out) + "\n"
